@@ -21,6 +21,7 @@ def run(prog: Program, rep: Report, tier: str):
     rule_entry(prog, rep)
     rule_recursive(prog, rep)
     rule_freeze(prog, rep)
+    rule_batchsafe(prog, rep)
     if tier == "thorough":
         from ..audit import audit_generic
         audit_generic(prog, rep, "C12")
@@ -266,3 +267,31 @@ def rule_freeze(prog, rep):
         rep.check(ok_c and reassigned == 1, "C12.freeze", site, f"{fname}:combine(params, same static)",
                   "the model is rebuilt with the static half of this partition",
                   f"combine calls {[ast.unparse(n) for n in combs]} / static reassigned {reassigned} times")
+
+
+def rule_batchsafe(prog, rep):
+    """Wrappers that opt out of the vectorised unwrap (_dummy = None) are unwrapped as-is when they were built
+    under vmap / stacked for Scan, i.e. with extra LEADING batch axes on their arrays: their unwrap formula must
+    address axes relative to the end (negative axis or none)."""
+    rep.rule("C12.batchsafe", "a wrapper with _dummy = None (no vectorised unwrap) only uses axis arguments relative to "
+                              "the trailing dimensions (negative or None), so unwrapping a vmapped-constructed / stacked "
+                              "wrapper equals the stack of the individually unwrapped ones", minimum=3)
+    for k in prog.subclasses(UNWRAPPABLE):
+        if prog.is_abstract(k):
+            continue
+        fd = prog.find_field(k, "_dummy")
+        no_vec = fd is not None and fd[1].classvar and isinstance(fd[1].default, ast.Constant) and fd[1].default.value is None
+        if not no_vec:
+            continue
+        r = prog.find_method(k, "unwrap")
+        bad = []
+        for node in ast.walk(r[1]):
+            if isinstance(node, ast.keyword) and node.arg in ("axis", "axes"):
+                v = node.value
+                ok = (isinstance(v, ast.Constant) and v.value is None) or (
+                    isinstance(v, ast.UnaryOp) and isinstance(v.op, ast.USub) and isinstance(v.operand, ast.Constant))
+                if not ok:
+                    bad.append(ast.unparse(node))
+        rep.check(not bad, "C12.batchsafe", method_site(prog, k, "unwrap"), f"{k.name}.unwrap:trailing-axes-only",
+                  "no absolute axis", f"{k.name}.unwrap uses {bad}: an absolute axis addresses a different dimension once "
+                                      f"the wrapper carries a leading batch axis (vmapped construction, stacked Scan layers)")
